@@ -4,8 +4,9 @@ Same shape as vf/x86step.py: `run_batch([(code bytes, state, arena_seed)])` -> [
 `status` (0 = executed, else the name of the emulator exception: untestable), `changed` (bit i:
 x<i> differs from the input), `reg("g", i)`, `arena_hash`, `first`/`last` (changed arena bytes).
 A state is {"g": [32 ints]}; x0 is forced to 0.  The instruction is placed at CODE_BASE and executed
-with `Machine.run(pc, until=pc + length, step_limit=1)`: an instruction that leaves the
-straight line (taken branch, jump) is reported as status "control transfer".
+with `Machine.run(pc, until=pc + length, step_limit=length / 2)` (one instruction, or the short
+straight-line sequence a pseudo-instruction renders to): code that leaves the straight line (taken
+branch, jump) is reported as status "control transfer".
 
 The emulator is validated independently of ppci by rv32.selfcheck() (decode against llvm-mc,
 semantics against clang-compiled code whose results are known from native execution); the check
@@ -100,11 +101,10 @@ def run_batch(items):
         regs = [v & M32 for v in st["g"]]
         regs[0] = 0
         m.regs[:] = regs
-        d = decode_code(code)
-        ln = d[5] if d else n
         status = 0
         try:
-            m.run(CODE_BASE, until=(CODE_BASE + ln) & M32, step_limit=1)
+            # straight line: every instruction of the (short) sequence once, ends exactly behind it
+            m.run(CODE_BASE, until=(CODE_BASE + n) & M32, step_limit=max(1, n // 2))
         except rv32.StepLimit:
             status = "control transfer"
         except rv32.EmuError as e:
